@@ -447,7 +447,238 @@ def r6_4(F, R):
                    lambda fn: fn.crate == "common.lib" or "texlang::parse::" in fn.name or any(x in fn.name for x in ("texlang_stdlib::math::", "texlang_stdlib::the::", "texlang_stdlib::registers::")), 8, aud)
 
 
+def r6_6(F, R):
+    from ..cfg import Defs, dominators
+    from ..dataflow import op_place
+    R.rule("R6.6", "only a decimal constant takes a fraction (TeX §448: `if (radix = 10) and (cur_tok = point_token)`): in scan_constant_dimen every "
+                   "scan_decimal_fraction call that follows parse_integer is dominated by the success edge of a comparison of the reported radix "
+                   "with 10 (`radix == Some(10)` or a match on `Some(10)`); testing only that a radix exists lets `'10.5pt` and `\"A.5pt` scan a "
+                   "fraction where TeX reports an illegal unit")
+    fns = [f for f in F.fns.values() if strip_generics(f.name) == "texlang::parse::dimen::scan_constant_dimen"]
+    if len(fns) != 1:
+        raise AnchorError("R6.6: scan_constant_dimen: %d matches" % len(fns))
+    fn = fns[0]
+    D = Defs(fn)
+    dom = dominators(fn)
+    pi = [bi for bi, t in fn.calls() if strip_generics(callee_name(t) or "").endswith("integer::parse_integer")]
+    if not pi:
+        raise AnchorError("R6.6: scan_constant_dimen no longer calls parse_integer")
+    sdf = [(bi, t) for bi, t in fn.calls() if strip_generics(callee_name(t) or "").endswith("scan_decimal_fraction") and any(p in dom[bi] for p in pi)]
+    if not sdf:
+        raise AnchorError("R6.6: no scan_decimal_fraction call after parse_integer")
+
+    def promoted_some(o):
+        """value v if the operand is (a reference to) a promoted `Some(v)`"""
+        p = op_place(o)
+        for _ in range(4):
+            if p is None:
+                return None
+            d = D.single(p["l"])
+            if d is None or d[0] != "st" or d[3]["k"] != "=":
+                return None
+            rv = d[3]["rv"]
+            if rv["k"] == "ref":
+                p = {"l": rv["pl"]["l"], "p": []}
+                continue
+            if rv["k"] == "use":
+                c = rv["op"].get("c") if isinstance(rv["op"], dict) else None
+                if c and "promoted" in c:
+                    body = (fn.raw.get("promoted") or [])[c["promoted"]]
+                    for b in body["blocks"]:
+                        for st in b["s"]:
+                            if st["k"] == "=" and st["rv"]["k"] == "agg" and str(st["rv"].get("variant")) == "Some" and st["rv"]["ops"]:
+                                cc = st["rv"]["ops"][0].get("c") or {}
+                                return cc.get("int")
+                    return None
+                p = op_place(rv["op"])
+                continue
+            return None
+        return None
+    witness = set()
+    for bi, t in fn.calls():
+        last = strip_generics(callee_name(t) or "").split("::")[-1]
+        if last in ("eq", "ne") and len(t["args"]) == 2 and t.get("t") is not None:
+            vals = [promoted_some(a) for a in t["args"]]
+            if 10 in vals:
+                nb = fn.blocks[t["t"]]["t"]
+                if nb["k"] == "switch":
+                    m = dict((v, bb) for v, bb in nb["ts"])
+                    true_t = nb["else"] if 0 in m else m.get(1)
+                    false_t = m.get(0, nb["else"])
+                    witness.add(true_t if last == "eq" else false_t)
+    for bi, b in enumerate(fn.blocks):
+        t = b["t"]
+        if t["k"] == "switch":
+            p = op_place(t["op"])
+            if p is not None and p["p"] and fn.local_ty(p["l"]) in ("core::option::Option<u8>", "core::option::Option<u32>", "core::option::Option<i32>"):
+                for v, tb in t["ts"]:
+                    if v == 10:
+                        witness.add(tb)
+            src = D.single(p["l"]) if p is not None and not p["p"] else None
+            if src and src[0] == "st" and src[3]["k"] == "=" and src[3]["rv"]["k"] == "use":
+                q = op_place(src[3]["rv"]["op"])
+                if q is not None and q["p"] and fn.local_ty(q["l"]).startswith("core::option::Option<"):
+                    for v, tb in t["ts"]:
+                        if v == 10:
+                            witness.add(tb)
+    n = 0
+    for bi, t in sdf:
+        n += 1
+        inst = "scan_constant_dimen/fraction#%d" % n
+        if any(w in dom[bi] for w in witness):
+            R.ok("R6.6", inst, "dominated by radix == 10", fn.loc(t), how="dominator")
+        else:
+            R.violation("R6.6", inst, "scan_constant_dimen scans a decimal fraction after parse_integer without having compared the radix with 10: an octal, "
+                        "hexadecimal (or alphabetic) constant followed by `.` or `,` takes a fraction, where TeX stops and reports an illegal unit", fn.loc(t))
+
+
+def r6_7(F, R):
+    from ..cfg import Defs, dominators
+    from ..dataflow import op_place
+    from .common import same_file_callees
+    R.rule("R6.7", "a glue prints as TeX's print_spec prints it (§178): the ` plus ` and ` minus ` parts are written exactly when the stretch / shrink "
+                   "*amount* is non-zero — every write of <Glue as Display>::fmt after the width is dominated by the non-zero edge of a comparison "
+                   "of self.stretch or self.shrink with zero (directly, or in a helper of the same file that receives the amount); a part that is also "
+                   "written for a zero amount of infinite order (`plus 0.0fil`) is text TeX never prints")
+    fns = [f for f in F.fns.values() if strip_generics(f.name) == "<common::Glue as core::fmt::Display>::fmt"]
+    if len(fns) != 1:
+        raise AnchorError("R6.7: <Glue as Display>::fmt: %d matches" % len(fns))
+    top = fns[0]
+    WRITES = ("write_fmt", "write_str", "write_char", "pad")
+
+    def analyse(fn, params):
+        """params: {local: label} of Scaled-typed parameters that carry an amount (helper), or None for fmt itself (fields of self).
+        -> (witness {block: (label, cmp block)}, writes [(block, term)], calls of helpers that carry an amount [(block, term, {arg index: label})])"""
+        D = Defs(fn)
+
+        def amount_of(o):
+            p = op_place(o)
+            for _ in range(5):
+                if p is None:
+                    return None
+                names = [e.get("n") for e in p["p"] if isinstance(e, dict) and "f" in e]
+                if params is None:
+                    if names:
+                        return names[0] if p["l"] == 1 and names[0] in ("stretch", "shrink") else None
+                else:
+                    if p["l"] in params and (not names or names == ["0"]):
+                        return params[p["l"]]
+                    if names:
+                        return None
+                d = D.single(p["l"])
+                if d is None or d[0] != "st" or d[3]["k"] != "=":
+                    return None
+                rv = d[3]["rv"]
+                if rv["k"] == "ref":
+                    p = rv["pl"]
+                    continue
+                if rv["k"] == "use":
+                    p = op_place(rv["op"])
+                    continue
+                return None
+            return None
+
+        def is_zero_const(o):
+            p = op_place(o)
+            for _ in range(5):
+                if p is None:
+                    return "ZERO" in str(o.get("c")) if isinstance(o, dict) and o.get("c") is not None else False
+                d = D.single(p["l"])
+                if d is None or d[0] != "st" or d[3]["k"] != "=":
+                    return False
+                rv = d[3]["rv"]
+                if rv["k"] == "ref":
+                    p = {"l": rv["pl"]["l"], "p": []}
+                    continue
+                if rv["k"] == "use":
+                    c = rv["op"].get("c") if isinstance(rv["op"], dict) else None
+                    if c and "promoted" in c:
+                        body = (fn.raw.get("promoted") or [])[c["promoted"]]
+                        for b in body["blocks"]:
+                            for st in b["s"]:
+                                if st["k"] == "=" and st["rv"]["k"] == "agg" and str(st["rv"].get("adt", "")).endswith("Scaled") and st["rv"]["ops"]:
+                                    return (st["rv"]["ops"][0].get("c") or {}).get("int") == 0
+                                if st["k"] == "=" and st["rv"]["k"] == "use" and isinstance(st["rv"]["op"], dict) and "ZERO" in str(st["rv"]["op"].get("c")):
+                                    return True
+                        return False
+                    if c is not None:
+                        return "ZERO" in str(c)
+                    p = op_place(rv["op"])
+                    continue
+                return False
+            return False
+        witness = {}
+        for bi, t in fn.calls():
+            last = strip_generics(callee_name(t) or "").split("::")[-1]
+            if last in ("eq", "ne") and len(t["args"]) == 2 and t.get("t") is not None:
+                fs = [amount_of(a) for a in t["args"]]
+                f = [x for x in fs if x]
+                if f and any(is_zero_const(a) for a in t["args"]):
+                    nb = fn.blocks[t["t"]]["t"]
+                    if nb["k"] == "switch":
+                        m = dict((v, bb) for v, bb in nb["ts"])
+                        true_t = nb["else"] if 0 in m else m.get(1)
+                        false_t = m.get(0, nb["else"])
+                        witness[false_t if last == "eq" else true_t] = (f[0], bi)
+        writes = [(bi, t) for bi, t in fn.calls() if strip_generics(callee_name(t) or "").split("::")[-1] in WRITES]
+        carried = []
+        for bi, t in fn.calls():
+            lab = {i: amount_of(a) for i, a in enumerate(t.get("args") or [])}
+            lab = {i: v for i, v in lab.items() if v}
+            if lab:
+                carried.append((bi, t, lab))
+        return witness, writes, carried
+    n = 0
+    wit, writes, carried = analyse(top, None)
+    dom = dominators(top)
+    labels = {v[0] for v in wit.values()}
+    helper_ok = set()
+    if len(labels) < 2:
+        # the comparison may sit in a helper that receives the amount
+        for bi, t, lab in carried:
+            c = t.get("callee") or {}
+            g = None
+            for cid in (c.get("rid"), c.get("id")):
+                if cid and cid in F.fns and F.fns[cid].file == top.file:
+                    g = F.fns[cid]
+                    break
+            if g is None:
+                continue
+            params = {i + 1: v for i, v in lab.items() if g.local_ty(i + 1).endswith("Scaled")}
+            if not params:
+                continue
+            hw, hwrites, _ = analyse(g, params)
+            hdom = dominators(g)
+            for hb, ht in hwrites:
+                n += 1
+                inst = "Glue::fmt/%s/write#%d" % (strip_generics(g.name).split("::")[-1], n)
+                if any(w in hdom[hb] for w in hw):
+                    R.ok("R6.7", inst, "written only when the amount handed to %s is non-zero" % g.name, g.loc(ht), how="dominator")
+                else:
+                    R.violation("R6.7", inst, "%s writes a part of the glue on a path where the amount it received was not found non-zero: a zero amount (of "
+                                "infinite order) is printed, e.g. `1.0pt plus 0.0fil`, where TeX prints `1.0pt`" % g.name, g.loc(ht))
+            if hw and hwrites:
+                helper_ok |= set(lab.values())
+        if len(labels | helper_ok) < 2:
+            raise AnchorError("R6.7: comparisons of self.stretch and self.shrink with zero not found (%s)" % sorted(labels | helper_ok))
+    first_test = min([v[1] for v in wit.values()] + [bi for bi, t, lab in carried if set(lab.values()) & helper_ok] or [0])
+    for bi, t in writes:
+        if bi in dom[first_test] and bi != first_test:
+            continue   # the width, written before either test
+        n += 1
+        inst = "Glue::fmt/write#%d" % n
+        ws = [w for w in wit if w in dom[bi]]
+        if ws:
+            R.ok("R6.7", inst, "written only when self.%s != 0" % wit[ws[0]][0], top.loc(t), how="dominator")
+        else:
+            R.violation("R6.7", inst, "<Glue as Display>::fmt writes a part of the glue on a path where neither self.stretch nor self.shrink was found non-zero: "
+                        "a zero amount (of infinite order) is printed, e.g. `1.0pt plus 0.0fil`, where TeX prints `1.0pt`", top.loc(t))
+    R.floor("R6.7", "component writes of <Glue as Display>::fmt", n, 3)
+
+
 def run(F, R, tier):
+    r6_7(F, R)
+    r6_6(F, R)
     r6_1(F, R)
     r6_1b(F, R)
     r6_1c(F, R)
